@@ -20,5 +20,8 @@ def run(ctx):
     r.analysed["instances"] = ["%s%s -> %s" % (v.ci.name, ("+" + p.ci.name) if p else "", n.ci.name) for v, p, n in inst]
     for v, p, n in inst:
         next_level_inclusion(ctx, v, p, n, "C11.next-level")
+    # "such a product can itself be assembled": the closed form the inclusion is stated on
+    from ..kernels import run_kernels
+    run_kernels(ctx, ["K7", "K8", "K14"], "C11")
     r.floor("C11.next-level.inclusion", 8)
     r.floor("C11.next-level.containment", 8)
